@@ -43,6 +43,14 @@ def auth_cases(rng, quick, kinds=None, pairs=True):
         s = authcat.base_variation(authcat.Scn(kind), rng)
         pol, a = s.build()
         yield "baseline", pol, a, rng.choice(("text", "dict", "record")), "accept"
+    # the whole policy lattice against every UP/UV flag combination (verdict by the flag table)
+    for fl in (0x00, 0x01, 0x04, 0x05):
+        for ruv in (False, True):
+            s = authcat.Scn(kinds[(fl + ruv) % len(kinds)])
+            s.flags, s.require_uv = fl, ruv
+            pol, a = s.build()
+            ok = bool(fl & 1) and (not ruv or bool(fl & 4))
+            yield f"policy-lattice flags={fl:#04x} uv_required={ruv}", pol, a, rng.choice(("text", "dict", "record")), ("accept" if ok else "reject")
     if pairs:
         ps = list(itertools.combinations(names, 2))
         rng.shuffle(ps)
@@ -88,6 +96,16 @@ def reg_cases(rng, quick, pairs=True):
             f(s, rng)
             pd, reg = regsim.build(s)
             yield f"{name}/{fmt}", regrun.policy_of(pd), reg, rng.choice(("dict", "record")), "reject", s
+        # the whole policy lattice against every UP/UV flag combination (verdict by the flag table)
+        if not quick or fmt in ("none", "packed", "apple"):
+            for fl in (0x40, 0x41, 0x44, 0x45):
+                for rup in (False, True):
+                    for ruv in (False, True):
+                        s = regsim.RScn(fmt, kinds[0])
+                        s.flags, s.require_up, s.require_uv = fl, rup, ruv
+                        pd, reg = regsim.build(s)
+                        ok = (bool(fl & 1) or not rup) and (bool(fl & 4) or not ruv)
+                        yield f"policy-lattice flags={fl:#04x} up_required={rup} uv_required={ruv}/{fmt}", regrun.policy_of(pd), reg, "dict", ("accept" if ok else "reject"), s
         if fmt in regsim.X5C_FORMATS:
             for name, f in regcat.CHAIN_FAULTS.items():
                 if fmt == "fido-u2f" and "intermediate" in name:
